@@ -2,7 +2,7 @@
     rename_blocks) and MincModel.v (heap of objects with rational volumes / distances / areas: minc, __add__, embed). *)
 From Coq Require Import Ascii String List Bool PArith NArith ZArith QArith FMapPositive Permutation.
 From PTBase Require Import Exn PyStr.
-From P Require Import Assoc GridPhys PhysLemmas PhysProofs PhysCompose MincModel MincLemmas MincProofs MincThms EmbedProofs MincBuild.
+From P Require Import Assoc GridPhys PhysLemmas PhysProofs PhysCompose MincModel MincLemmas MincProofs MincThms EmbedProofs MincBuild MincTotal RefuseProofs.
 Import ListNotations.
 Open Scope list_scope.
 
@@ -144,3 +144,40 @@ Theorem example_embed :
   names_of ex_h4 (t_bl ex_r) = [tk "ATM 0"; tk "  a 1"; tk "  a 2"; tk "sub 1"].
 Proof. exact embed_instance. Qed.
 Print Assumptions example_embed.
+
+(** minc conserves the TOTAL volume of the grid: for every naming function pair, geometry, cut-off, fraction list whose
+    sum is not zero and every selection of distinct block names of a well-formed grid, the sum of the volumes of the
+    whole block list afterwards (fracture and matrix continua of the processed blocks, every other block) equals
+    the sum before *)
+Theorem minc_conserves_total_volume : forall mbname mrname dd aa atm h t fr blocks h' t', wf h t ->
+  NoDup (selection h t blocks) -> (forall n, In n (selection h t blocks) -> tbget t n <> None) ->
+  minc mbname mrname dd aa atm h t fr blocks = Ok (h', t') -> ~ (sumQ fr == 0)%Q ->
+  (total_volume h' t' == total_volume h t)%Q.
+Proof. exact minc_total_volume. Qed.
+Print Assumptions minc_conserves_total_volume.
+Theorem example_minc_total :
+  ~ (sumQ [1; 3] == 0)%Q /\ Qred (total_volume ex_h' ex_t') = Qred (total_volume ex_h ex_t) /\
+  length (t_bl ex_t') = 5%nat /\ length (t_bl ex_t) = 3%nat.
+Proof. exact minc_total_instance. Qed.
+Print Assumptions example_minc_total.
+
+(** refusals.  embed returns None EXACTLY when the host block's volume does not exceed the sub-grid's total volume or
+    some block name occurs in both grids, and then no object of the heap (so neither grid) has been changed;
+    minc with fewer than two volume fractions raises, whatever the grid and the selection *)
+Theorem embed_refuses_exactly : forall h self sub cj h',
+  embed h self sub cj = Ok (h', None) <->
+  h' = h /\ (~ (total_volume h sub < kvol h (o_b0 (cx h cj)))%Q \/
+             exists n, In n (names_of h (t_bl self)) /\ In n (names_of h (t_bl sub))).
+Proof. exact embed_none_iff. Qed.
+Print Assumptions embed_refuses_exactly.
+Theorem minc_refuses_single_fraction : forall mbname mrname dd aa atm h t fr blocks, (length fr < 2)%nat ->
+  minc mbname mrname dd aa atm h t fr blocks = Raise PlainException.
+Proof. exact minc_too_few_fractions. Qed.
+Print Assumptions minc_refuses_single_fraction.
+Theorem example_refusals :
+  embed ex_h3 ex_t ex_t ex_cj = Ok (ex_h3, None) /\
+  (exists n, In n (names_of ex_h3 (t_bl ex_t)) /\ In n (names_of ex_h3 (t_bl ex_t))) /\
+  embed ex_h3 ex_t ex_sub ex_cj = Ok (ex_h4, Some ex_r) /\
+  minc default_mbname default_mrname ex_dd ex_aa ex_atm ex_h ex_t [1] [] = Raise PlainException.
+Proof. exact refusal_instance. Qed.
+Print Assumptions example_refusals.
